@@ -88,7 +88,7 @@ def cfg_lean(facts):
             + pyfrag.lean_table("fns", facts["fns"], "Bptk.C03.Gen") + pyfrag.lean_table("extended", facts["extended"], "Bptk.C03.Gen")
             + "namespace Bptk.C03.Gen\nopen Bptk.Py Bptk.C03\n"
             + f"def opT : XOp → List Tok\n{rows}\n"
-            + "def cfg : Cfg := { opT := opT,\n"
+            + "def cfg : Cfg := {\n  opT := opT,\n"
             + f"  notT := {{ cls := \"not\", arity := 1, toks := {lean_toks(facts['not'])} }},\n"
             + f"  fns := fns,\n  identT := {lean_toks(facts['ident'])},\n  identInitT := {lean_toks(facts['identInit'])},\n"
             + f"  unknownBuiltinRaises := {'true' if facts['unknownBuiltinRaises'] else 'false'} }}\n"
@@ -546,7 +546,7 @@ class Speller:
         if k == "special": return self.case(g[1])
         if k == "paren": return "(" + self.sp() + self.show(g[1]) + self.sp() + ")"
         if k == "neg": return "-" + self.sp() + self.child(g[1], 7)
-        if k == "not": return self.case("not") + "(" + self.sp() + self.show(g[1]) + self.sp() + ")"
+        if k == "not": return self.case("not") + "(" + self.show(g[1]) + ")"      # the PEG accepts no padding inside NOT( )
         if k in ("if", "ifs"):
             s = (self.case("if") + " " + self.sp() + self.show(g[1]) + " " + self.sp() + self.case("then") + " " + self.show(g[2])
                  + " " + self.case("else") + " " + self.sp() + self.show(g[3]))
@@ -656,7 +656,7 @@ def run(chk):
     b = lake_build(["Bptk.Gen.C03Cfg", "Bptk.Core.C03"])
     if not b["ok"]:
         raise LeanError("C03 configuration module does not build: " + b["log"][-1500:])
-    diag = dict(x.split("=", 1) for x in drive("C03", ["diag"])[0].split(";"))
+    diag = dict(x.split("|", 1) for x in drive("C03", ["diag"])[0].split(";"))
     bad = {k: v for k, v in diag.items() if v != "ok"}
     missing = [f"{f}/{n}" for f, n in VOCAB if f"{f}/{n}" not in diag]
     shapes = dict(x.split("=", 1) for x in drive("C03", ["shapes"])[0].split(";"))
